@@ -129,23 +129,26 @@ struct Array {
     }
 
     void operator+=(const Array &src) {
-        const SizeT n_size = (Size() + src.Size());
+        const SizeT size     = Size();
+        const SizeT src_size = src.Size();
+        const SizeT n_size   = (size + src_size);
 
         if (n_size > Capacity()) {
             resize(n_size);
         }
 
-        index_ += src.Size();
-
-        Type_T       *storage  = Storage();
+        // 'src' is read after resizing: if it is this array, its items are in the new storage now.
+        Type_T       *storage  = (Storage() + size);
         const Type_T *src_item = src.First();
-        const Type_T *src_end  = (src_item + src.Size());
+        const Type_T *src_end  = (src_item + src_size);
 
         while (src_item < src_end) {
             Memory::Initialize(storage, *src_item);
             ++storage;
             ++src_item;
         }
+
+        setSize(n_size);
     }
 
     void operator+=(Type_T &&item) {
